@@ -65,8 +65,7 @@ Qed.
 
 Lemma cancelled_sys m c x : Forall (fun i => is_sys i = true) (cancelled m c x).
 Proof.
-  apply Forall_forall. intros i Hi. unfold cancelled in Hi. apply in_flat_map in Hi. destruct Hi as (n & _ & Hn).
-  destruct (existsb _ _); [destruct Hn as [<-|[]]; reflexivity|destruct Hn].
+  apply Forall_forall. intros i Hi. destruct (cancelled_in _ _ _ _ Hi) as [(id & ->)|(id & ->)]; reflexivity.
 Qed.
 
 Definition req_time (now : N) (l : list item) : option N :=
@@ -389,7 +388,7 @@ Proof.
     unfold start_calls at 3 in H. cbn [filter is_start_call] in H.
     destruct r; cbn [fst]; try exact H; try (rewrite (poll_ready_NoStart k now m s2); exact H). }
   destruct (stage =? 0).
-  - destruct (G (c_tasks c) (pick_start c (inc (w_mod (x_w s) m)))) as (a & Ha). exists a.
+  - destruct (G (c_spawn c) (pick_start c (inc (w_mod (x_w s) m)))) as (a & Ha). exists a.
     destruct (exec k now m (CbStart stage) _ _ s) as [s1 p]. cbn [fst] in *.
     destruct (catch c m p (x_w s1)) as [w2 e2]. cbn [fst x_log]. exact Ha.
   - destruct (G [] []) as (a & Ha). exists a.
@@ -441,7 +440,7 @@ Proof.
     match goal with |- context [run_prog false k now m 0 p ?s0] =>
       pose proof (run_prog_panic_in false k now m 0 p s0) as H; destruct (run_prog false k now m 0 p s0) as [s2 r] end.
     cbn [fst snd] in H. destruct r; cbn [fst snd]; try discriminate. intros _. apply H. reflexivity. }
-  set (e := if stage =? 0 then exec k now m (CbStart stage) (c_tasks c) (pick_start c (inc (w_mod (x_w s) m))) s
+  set (e := if stage =? 0 then exec k now m (CbStart stage) (c_spawn c) (pick_start c (inc (w_mod (x_w s) m))) s
             else exec k now m (CbStart stage) [] [] s).
   assert (He : snd e = true -> exists cc, In (IPanic m 0 cc) (x_log (fst e))) by (unfold e; destruct (stage =? 0); apply G).
   destruct e as [s1 p]. cbn [fst snd] in He. unfold catch. destruct p; cbn [fst snd].
@@ -462,7 +461,7 @@ Proof.
     match goal with |- context [run_prog false k now m 0 p ?s0] =>
       pose proof (run_prog_panic_in false k now m 0 p s0) as H; destruct (run_prog false k now m 0 p s0) as [s2 r] end.
     cbn [fst snd] in H. destruct r; cbn [fst snd]; try discriminate. intros _. apply H. reflexivity. }
-  set (e := if stage =? 0 then exec k now m (CbStart stage) (c_tasks c) (pick_start c (inc (w_mod (x_w s) m))) s
+  set (e := if stage =? 0 then exec k now m (CbStart stage) (c_spawn c) (pick_start c (inc (w_mod (x_w s) m))) s
             else exec k now m (CbStart stage) [] [] s).
   assert (He : (snd e = true -> exists cc, In (IPanic m 0 cc) (x_log (fst e))) /\ active (w_mod (x_w (fst e)) m) = active (w_mod (x_w s) m))
     by (unfold e; destruct (stage =? 0); apply G).
